@@ -657,16 +657,19 @@ def distance_exits(ctx, prog):
     res = [re.sub(r"^\((\w+)WithOverflow\((.*)\)\)\.0$", r"\1(\2)", r) for r in res]
     m = None
     if len(res) == 1:
-        m = re.match(r"^Sub\(Add\(\(internals::compare::position_array::BlockHashPositionArrayData::len\(param:self\) as u32\),\(core::slice::<impl \[T\]>::len\(param:other\) as u32\)\),Mul\(2,core::num::<impl u64>::count_zeros\(local:\w+_(\d+)\)\)\)$", res[0])
+        Z = r"core::num::<impl u64>::count_zeros\(local:\w+_(\d+)\)"
+        m = re.match(r"^Sub\(Add\(\(internals::compare::position_array::BlockHashPositionArrayData::len\(param:self\) as u32\),\(core::slice::<impl \[T\]>::len\(param:other\) as u32\)\),(?:Mul\(2,%s\)|Mul\(%s,2\)|Shl\(%s,1\))\)$" % (Z, Z, Z), res[0])
     ok = m is not None
     why = "results: %s" % [r[:140] for r in res]
     if ok:
-        v = int(m.group(1))
+        v = int([g for g in m.groups() if g is not None][0])
         ds = [canon(strip(sy.rvalue(x))) if k == "rv" else "call" for (b, _i, k, x) in f.defs.get(v, [])]
         inits = [d for d in ds if "local:%s_%d" % (f.locals[v]["name"], v) not in d]
-        ok = inits == ["Not(0)"] and len(ds) == 2
+        ok = len(inits) == 1 and (inits[0] == "Not(0)" or inits[0].endswith("=18446744073709551615") or inits[0] == "18446744073709551615") and len(ds) == 2
         why = "accumulator definitions %s" % [d[:60] for d in ds]
         srcs = [re.sub(r"^<I as core::iter::IntoIterator>::into_iter\((.*)\)$", r"\1", canon(strip(sy.origin(strip(sy.operand(t["args"][0])))))) for i, t in f.calls() if callee_of(t).endswith("::next")]
+        # `for x in other` (IntoIterator for &[T]) is `for x in other.iter()`
+        srcs = [re.sub(r"^core::slice::iter::<impl core::iter::IntoIterator for &'a \[T\]>::into_iter\(", "core::slice::<impl [T]>::iter(", x) for x in srcs]
         ok = ok and srcs == ["core::slice::<impl [T]>::iter(param:other)"]
         why += "; walks %s" % srcs
     ctx.ob("SA-FORMULA", "edit_distance_internal: single result len(self)+len(other)-2*zeros(v), v from all-ones over every symbol of `other`", ok, why, f.loc())
